@@ -169,6 +169,42 @@ def on_ok_path(g, node):
     return False
 
 
+def unguarded_ttl_extensions(g):
+    """`extend_ttl(K)` on a persistent / temporary entry TRAPS when the entry does not exist: every such call must lie behind evidence
+    that K exists - a presence test or successful read of the same key, or a write of it earlier on the path.  Returns the offending
+    (ctx, bb, class, key) list."""
+    out = []
+    for ctx, bb, t in g.call_nodes():
+        m = re.search(r'storage::(Persistent|Temporary)::extend_ttl', t['callee'])
+        if not m:
+            continue
+        a = [norm(x) for x in g.arg_terms(ctx, bb)]
+        if len(a) < 2:
+            continue
+        cls, key = m.group(1).lower(), core(a[1])
+        pres = guard_sel(g, lambda c_: c_[0] == 'present' and isinstance(c_[1], tuple) and c_[1][0] in ('skey', 'sget') and c_[1][1] == cls
+                         and same(core(c_[1][2]), key))
+        ws = [e.node for e in effects(g) if e.kind == 'sw' and e.cls == cls and same(core(e.key), key)]
+        ok, _, _ = mg(g, [(ctx.id, bb)], ws, edges(pres))
+        if not ok:
+            out.append((ctx, bb, cls, key))
+    return out
+
+
+def check_ttl_extensions(P, rep, rule, cn, entries, floor):
+    """no entry of `entries` can trap in a TTL extension of an entry that may not exist (a wrong key there makes every call fail)"""
+    n = 0
+    for en in entries:
+        if en not in P.crates[cn].entries:
+            continue
+        g = P.graph(cn, en)
+        n += sum(1 for _c, _b, t_ in g.call_nodes() if re.search(r'storage::(Persistent|Temporary)::extend_ttl', t_['callee']))
+        for ctx, bb, cls, key in unguarded_ttl_extensions(g):
+            rep.bad(rule, '%s:ttl-extension-of-possibly-missing-entry' % en, 'extend_ttl of a %s entry lies behind a presence test / read / write of the same key '
+                    '(it traps on a missing entry)' % cls, site(g, ctx, bb), fmt(key)[:200])
+    rep.floor('%s TTL extension sites (%s)' % (cn, ','.join(entries)[:60]), n, floor)
+
+
 def stale_reads(g, variant):
     """read-modify-write freshness: pairs (write w, intervening write w2, read site r) such that the value stored by w
     derives from a read r of a key of `variant` and another write w2 to a key of the same variant (a possibly aliasing
@@ -185,8 +221,10 @@ def stale_reads(g, variant):
         for r in reads:
             after_r = succ_reachable(g, [r])
             for w2 in ws:
-                if w2 is w or w2.node not in after_r:
+                if w2.node not in after_r:
                     continue
+                # (w2 may be w itself: a write in a loop whose read was taken once before the loop stores a value computed from
+                # the state before its own previous iteration)
                 # ... and w is reached from w2 WITHOUT the read being executed again (in a loop the next iteration re-reads: fresh)
                 if w.node in succ_reachable(g, [w2.node], [r]):
                     out.append((w, w2, r))
